@@ -613,12 +613,20 @@ theorem proxy_open_breaker_proxies_nothing (c : PCfg) (hold get : Bool) (left : 
     · simp
     · simp
 
-/-- `tryAgain`: no retry once `lb_retries` is used up, and a POST request is not retried after an
-    error that is not a dial error (the upstream may have acted on it); dial errors and "no
-    upstreams available" are retried for every method -/
-theorem proxy_retry_rule (left : Nat) (e : PErr) (get : Bool) :
-    tryAgain left e get = (decide (0 < left) && (e ≠ .other || get)) := by
+/-- `tryAgain`: no retry once `lb_retries` is used up, and after an error that is not a dial error
+    (the upstream may have acted on the request) only a retryable request is tried again; dial
+    errors and "no upstreams available" are retried for every request -/
+theorem proxy_retry_rule (left : Nat) (e : PErr) (ok : Bool) :
+    tryAgain left e ok = (decide (0 < left) && (e ≠ .other || ok)) := by
   cases e <;> simp [tryAgain]
+
+/-- which requests are retryable: without `lb_retry_match` the GET requests (a POST is never
+    repeated by default); with it exactly the requests its matcher set matches — also a POST if
+    the operator says so, and then no longer a GET unless it matches too -/
+theorem proxy_retry_match_rule (c : PCfg) (get : Bool) :
+    retryable c get = (if c.rm = 0 then get else if c.rm = 1 then !get else if c.rm = 2 then get else true) := by
+  unfold retryable
+  split <;> simp_all
 
 /-! ## what the hash / header / query / cookie policies take from the request
 
@@ -898,7 +906,7 @@ example : exPool.length ≤ [3, 0, 1, 0, 0].length ∧ (selRandom exPool [3, 0, 
 
 -- the proxy loop. static upstreams 7 (dial fails), 9, 11 (own max_requests 2); unhealthy_request_count 1,
 -- fail_duration set, lb_retries 2, policy first:
-def exCfg : PCfg := ⟨false, 1, true, 0, 2, [⟨7, 0, 1⟩, ⟨9, 0, 0⟩, ⟨11, 2, 0⟩], false⟩
+def exCfg : PCfg := ⟨false, 1, true, 0, 2, [⟨7, 0, 1⟩, ⟨9, 0, 0⟩, ⟨11, 2, 0⟩], false, 0⟩
 -- held GET: 7 fails (counted), retried on 9 and held there; GET: 9 is at its limit 1 → 11; POST → 11 (limit 2 of its own);
 -- the held request completes
 example : (prun exCfg (pinit .first exCfg []) [.arrive true true, .arrive false true, .arrive false false, .fin 0]).1
@@ -906,11 +914,11 @@ example : (prun exCfg (pinit .first exCfg []) [.arrive true true, .arrive false 
     (prun exCfg (pinit .first exCfg []) [.arrive true true, .arrive false true]).2.loads = [0, 1, 0] ∧
     (prun exCfg (pinit .first exCfg []) [.arrive true true, .arrive false true]).2.fails = [1, 0, 0] := by decide
 -- own max_requests 2 beats unhealthy_request_count 1: two held requests fit on address 11, the third is refused
-example : (prun ⟨false, 1, false, 0, 0, [⟨11, 2, 0⟩], false⟩ (pinit .first ⟨false, 1, false, 0, 0, [⟨11, 2, 0⟩], false⟩ [])
+example : (prun ⟨false, 1, false, 0, 0, [⟨11, 2, 0⟩], false, 0⟩ (pinit .first ⟨false, 1, false, 0, 0, [⟨11, 2, 0⟩], false, 0⟩ [])
     [.arrive true true, .arrive true true, .arrive true true]).1
       = [.req [] (.sent 0), .req [] (.sent 0), .req [none] (.status 503)] := by decide
 -- "other" error: a GET is retried (lb_retries 1, no failure counting: the same upstream again), a POST is not
-example : (prun ⟨false, 0, false, 0, 1, [⟨7, 0, 2⟩, ⟨9, 0, 0⟩], false⟩ (pinit .first ⟨false, 0, false, 0, 1, [⟨7, 0, 2⟩, ⟨9, 0, 0⟩], false⟩ [])
+example : (prun ⟨false, 0, false, 0, 1, [⟨7, 0, 2⟩, ⟨9, 0, 0⟩], false, 0⟩ (pinit .first ⟨false, 0, false, 0, 1, [⟨7, 0, 2⟩, ⟨9, 0, 0⟩], false, 0⟩ [])
     [.arrive false true, .arrive false false]).1
       = [.req [some 0, some 0] (.status 502), .req [some 0] (.status 502)] := by decide
 -- dynamic upstreams: the failure count lives only as long as somebody references the host, so without other
@@ -989,5 +997,12 @@ example : parseReverseProxy exDur exAddr
      ⟨str "lb_policy", 3⟩, ⟨str "random", 3⟩, ⟨rbrace, 4⟩] = none ∧
   parseReverseProxy exDur exAddr [⟨str "reverse_proxy", 1⟩, ⟨lbrace, 1⟩, ⟨str "lb_retries", 2⟩, ⟨str "3", 2⟩, ⟨str "junk", 2⟩, ⟨rbrace, 3⟩] = none ∧
   parseReverseProxy exDur exAddr [⟨str "reverse_proxy", 1⟩, ⟨str "nope", 1⟩] = none := by decide
+
+-- lb_retry_match `method POST`: now the POST is retried after an "other" error (and reaches the second upstream
+-- once the first is marked failed), the GET is not
+example : (prun { exCfg with rm := 1, ups := [⟨7, 0, 2⟩, ⟨9, 0, 0⟩] } (pinit .first { exCfg with rm := 1, ups := [⟨7, 0, 2⟩, ⟨9, 0, 0⟩] } [])
+    [.arrive false false, .arrive false true]).1 = [.req [some 0] (.sent 1), .req [] (.sent 1)] ∧
+  (prun { exCfg with rm := 1, fd := false, ups := [⟨7, 0, 2⟩, ⟨9, 0, 0⟩] } (pinit .first { exCfg with rm := 1, fd := false, ups := [⟨7, 0, 2⟩, ⟨9, 0, 0⟩] } [])
+    [.arrive false false, .arrive false true]).1 = [.req [some 0, some 0, some 0] (.status 502), .req [some 0] (.status 502)] := by decide
 
 end CaddyModel.C08
